@@ -305,6 +305,7 @@ Proof.
   set (np := f_trunc_Z (ffloor (PrimFloat.add (PrimFloat.mul (o_survival o) (f_of_Z n)) 1%float))) in *.
   remember (sort_desc org_lt (map (adjust_one o (sp_age s) debt n) orgs)) as sorted eqn:Es.
   destruct sorted as [|top rest]; [discriminate|].
+  destruct (Z.ltb np 0); [discriminate|].
   change (Ok (hsets h (marked_of np (top :: rest)),
               sp_with_orgs (if PrimFloat.ltb (sp_maxfit s) (o_orig top) then sp_with_improved s (o_orig top) (sp_age s) else s)
                            (map o_key (marked_of np (top :: rest)))) = Ok (h', s')) in H.
